@@ -16,7 +16,7 @@ inv["*"] = uni
 entry = [e for e in eng.entries if e.name == name][0]
 t = time.time()
 r = mrun.explore_entry(eng, entry, inv, "quick", t, limit=int(os.environ.get("VERIF_UNIT_PATHS", "3")))
-print("paths", r["paths"], "wall", r["wall"], "oos", r["oos"], "cuts", r["cuts"])
+print("paths", r["paths"], "wall", r["wall"], "oos", r["oos"], "cuts", r["cuts"], "abstracted inv checks", r.get("inv_checks_abstracted"))
 print("violated:", {c: len(k) for c, k in r["violated"].items()})
 for o in r["obligations"]:
     if o["status"] != "discharged":
